@@ -79,6 +79,7 @@ class SubLookup(LookupError):
 
 
 EXC_CLASSES = {
+    "ExceptionGroup": ExceptionGroup, "OSError": OSError,
     "SubLookup": SubLookup, "UnboundLocalError": UnboundLocalError,
     "KeyError": KeyError, "NameError": NameError, "AttributeError": AttributeError,
     "LookupError": LookupError, "IndexError": IndexError, "TypeError": TypeError,
@@ -140,6 +141,11 @@ CARRIERS = {"tuple": tuple, "userlist": _userlist, "bag": Bag, "nolen": NoLen, "
 
 
 def make_exc(c):
+    if c == "ExceptionGroup":
+        # (read-only members: message, exceptions)
+        return ExceptionGroup("scripted-group", [ValueError("inner-1"), KeyError("inner-2")])
+    if c == "OSError":
+        return OSError(2, "scripted-os-error", "some/file")
     cls = EXC_CLASSES[c]
     if cls is Custom2:
         return Custom2("a1", 2)
